@@ -50,6 +50,25 @@ func runC05(c *runCfg) error {
 		emitSession(c, lockCase(id, "corpus", cfg, stdStartup, msgs))
 		id++
 	}
+	// every call after completion fails without emitting bytes — CopyIn included (no CopyInResponse behind a
+	// CommandComplete or EmptyQueryResponse), in simple queries and through Execute
+	{
+		cols := textCols(2)
+		row := opT{kind: "row", vals: []valT{tv("a"), tv("b")}}
+		done := opT{kind: "complete", tag: []byte("DONE")}
+		progs := [][]opT{
+			{done, {kind: "copyin", fmt: 0}}, {{kind: "empty"}, {kind: "copyin", fmt: 1}}, {row, done, {kind: "copyin", fmt: 0}, {kind: "written"}},
+			{row, done, {kind: "copyin", fmt: 1}, row, done}, {done, {kind: "copyin", fmt: 0}, {kind: "copyread"}, done},
+		}
+		for pi, prog := range progs {
+			for _, stop := range []bool{false, true} {
+				st := stmtT{id: 40 + pi, cols: cols, prog: prog, stop: stop, ret: "nil"}
+				cfg := cfgT{limit: 1024, auth: "none", term: "none", parse: []parseEntry{{query: []byte("q"), stmts: []stmtT{st}}}}
+				emitSession(c, lockCase(id, "after_completion", cfg, stdStartup, [][]byte{mQuery([]byte("q")), mParse(nil, []byte("q"), 0), mBind(nil, nil, nil, nil, nil), mExecute(nil, 0), mSync(), mQuery([]byte("q"))}))
+				id++
+			}
+		}
+	}
 	// exhaustive: every handler program of length <= L over the operation alphabet, two column layouts
 	type sym struct{ op opT }
 	alpha := func(cols []colT) []opT {
